@@ -685,14 +685,7 @@ class ExecSim(object):
                 continue
             if uid in self.must_cancel and e['pushed_tasks']:
                 ts = e['pushed_tasks'][0].get('target_state')
-                pr = self.proc_of.get(uid)
-                ambiguous = False
-                if self.must_cancel[uid] == 'before_spawn' and pr is not None and not pr.killed \
-                        and pr.exit_step is not None and pr.spawner is not None:
-                    # the process exited by itself while its own launch was still in
-                    # progress: "had already finished" when the request could take effect
-                    ds = getattr(pr.spawner, 'done_step', None)
-                    ambiguous = ds is None or pr.exit_step <= ds
+                ambiguous = self.exited_during_own_launch(uid)
                 if ts != rps.CANCELED and not ambiguous:
                     self.bad('C08', 'named_task_not_canceled:%s' % self.must_cancel[uid],
                              '%s: cancel request handled while the task was %s, outcome %s'
@@ -762,6 +755,16 @@ class ExecSim(object):
                     pass        # already reported as left behind
                 elif uid in self.proc_of and self.proc_of[uid].returncode is None:
                     self.bad('C07', 'live_process_left_in_ownership_set', uid)
+
+    def exited_during_own_launch(self, uid):
+        """the process exited by itself (never killed) while the intake activity that spawned
+        it was still busy with the launch: for a cancel request recorded in that window
+        "it had already finished" when the request could take effect (either outcome is fine)"""
+        pr = self.proc_of.get(uid)
+        if pr is None or pr.killed or pr.exit_step is None or pr.spawner is None:
+            return False
+        ds = getattr(pr.spawner, 'done_step', None)
+        return ds is None or pr.exit_step <= ds
 
     def ending(self, uid):
         spec = self.tasks[uid]
